@@ -117,6 +117,9 @@ type Exec struct {
 	skipIntrinsicOnce *ssa.Function
 	afterHooks        []func()
 	uniqueTab         []uniqueEnt
+	constMemo         map[*Term]*Term
+	oneShots          int
+	oneShotLimit      int
 }
 
 type workItem struct {
@@ -164,6 +167,7 @@ func (ex *Exec) resetPath(prefix []Decision) {
 	ex.pcHash = 14695981039346656037
 	ex.pcSet = map[*Term]bool{}
 	ex.uniqueTab = nil
+	ex.constMemo = nil
 	ex.model = nil
 	ex.modelMemo = nil
 	ex.pathVars = nil
@@ -276,11 +280,9 @@ func (ex *Exec) feasibleM(c *Term, wantModel bool) (Res, Model) {
 	ex.profile("feasible")
 	var r Res
 	var m Model
-	if wantModel {
-		r, m = ex.sol.ModelWith(ex.pathVars, c)
-	} else {
-		r = ex.sol.CheckWith(c)
-	}
+	ex.oneShotLimit = 10000 // an undecided feasibility query keeps both sides; do not wait long
+	r, m = ex.solve([]*Term{c}, ex.pathVars, wantModel)
+	ex.oneShotLimit = 0
 	if r == Unknown {
 		ex.unknowns++
 	}
@@ -665,7 +667,7 @@ func (ex *Exec) recordViolation(kind, msg, stack string, m Model) {
 
 // modelNow returns a model of the current path condition plus extra.
 func (ex *Exec) modelNow(extra ...*Term) (Res, Model) {
-	return ex.sol.ModelWith(ex.allDrawVars(), extra...)
+	return ex.solve(extra, ex.allDrawVars(), true)
 }
 
 func (ex *Exec) stackString() string {
